@@ -48,6 +48,8 @@ import (
 	"github.com/Cloud-Foundations/keymaster/lib/certgen"
 	"github.com/Cloud-Foundations/keymaster/lib/instrumentedwriter"
 	"github.com/Cloud-Foundations/keymaster/lib/webapi/v0/proto"
+	"github.com/duo-labs/webauthn/webauthn"
+	"github.com/fxamacker/cbor/v2"
 	"github.com/go-jose/go-jose/v4/jwt"
 	"github.com/pquerna/otp/totp"
 	"github.com/tstranex/u2f"
@@ -717,17 +719,17 @@ var c06Gates = map[string]c06Gate{
 	"runtimeState.idpOpenIDCDiscoveryHandler":          {kind: "public"},
 	"runtimeState.idpOpenIDCJWKSHandler":               {kind: "public"},
 	"runtimeState.idpOpenIDCAuthorizationHandler":      {kind: "mask", mask: "webui", exercised: c06EffSigned},
-	"runtimeState.idpOpenIDCTokenHandler":              {kind: "own"},
+	"runtimeState.idpOpenIDCTokenHandler":              {kind: "own", exercised: c06EffSigned},
 	"runtimeState.idpOpenIDCUserinfoHandler":           {kind: "own"},
 	`"/static/"`:                                       {kind: "public"},
 	`"/static/compiled/"`:                              {kind: "public"},
 	`"/custom_static/"`:                                {kind: "public"},
 	"runtimeState.u2fRegisterRequest":                  {kind: "mask", mask: "webui", extra: "self-or-admin-u2f", exercised: c06EffChange, targets: []string{"alice", "bob", "admin"}},
-	"runtimeState.u2fRegisterResponse":                 {kind: "mask", mask: "webui", extra: "self-or-admin-u2f", targets: []string{"alice", "bob", "admin"}},
+	"runtimeState.u2fRegisterResponse":                 {kind: "mask", mask: "webui", extra: "self-or-admin-u2f", exercised: c06EffChange, targets: []string{"alice", "bob", "admin"}},
 	"runtimeState.u2fSignRequest":                      {kind: "mask", mask: "any", exercised: c06EffStart},
-	"runtimeState.u2fSignResponse":                     {kind: "mask", mask: "any"},
+	"runtimeState.u2fSignResponse":                     {kind: "mask", mask: "any", exercised: c06EffSigned},
 	"runtimeState.webauthnBeginRegistration":           {kind: "mask", mask: "webui", extra: "self-or-admin-u2f", exercised: c06EffChange, targets: []string{"alice", "bob", "admin"}},
-	"runtimeState.webauthnFinishRegistration":          {kind: "mask", mask: "webui", extra: "self-or-admin-u2f", targets: []string{"alice", "bob", "admin"}},
+	"runtimeState.webauthnFinishRegistration":          {kind: "mask", mask: "webui", extra: "self-or-admin-u2f", exercised: c06EffChange, targets: []string{"alice", "bob", "admin"}},
 	"runtimeState.webauthnAuthLogin":                   {kind: "mask", mask: "any", exercised: c06EffStart},
 	"runtimeState.webauthnAuthFinish":                  {kind: "mask", mask: "any"},
 	"runtimeState.VIPAuthHandler":                      {kind: "mask", mask: "any", exercised: c06EffSigned},
@@ -738,7 +740,7 @@ var c06Gates = map[string]c06Gate{
 	"runtimeState.vipPushStartHandler":                 {kind: "mask", mask: "any", exercised: c06EffStart},
 	"runtimeState.VIPPollCheckHandler":                 {kind: "mask", mask: "any", exercised: c06EffSigned},
 	"runtimeState.GenerateNewTOTP":                     {kind: "mask", mask: "webui", exercised: c06EffChange},
-	"runtimeState.validateNewTOTP":                     {kind: "mask", mask: "webui"},
+	"runtimeState.validateNewTOTP":                     {kind: "mask", mask: "webui", exercised: c06EffChange},
 	"runtimeState.totpTokenManagerHandler":             {kind: "mask", mask: "webui", extra: "self-or-admin-u2f", exercised: c06EffChange, targets: []string{"alice", "bob", "admin"}},
 	"runtimeState.verifyTOTPHandler":                   {kind: "mask", mask: "webui", exercised: c06EffChange},
 	"runtimeState.TOTPAuthHandler":                     {kind: "mask", mask: "any", exercised: c06EffChange | c06EffSigned},
@@ -905,6 +907,12 @@ type c06Prober struct {
 	okta      bool
 	denies    []c06Deny
 	deny      int // index of the deny list in force
+	// software authenticator: what the "finish" handlers need to succeed
+	dev          *verifU2FDevice
+	regChallenge *u2f.Challenge // pending U2F registration of alice, bob, admin
+	signChallenge *u2f.Challenge // pending U2F sign challenge of alice
+	seededAt     time.Time
+	oidcCode     string // an authorization code issued to alice's session for client "app"
 	denySweeps bool
 }
 
@@ -969,6 +977,10 @@ func (p *c06Prober) resetMaps() {
 	st := p.env.state
 	st.Mutex.Lock()
 	st.localAuthData = make(map[string]localUserData)
+	if p.signChallenge != nil {
+		// alice is in the middle of a hardware-token login: /u2f/SignResponse can succeed
+		st.localAuthData["alice"] = localUserData{U2fAuthChallenge: p.signChallenge, ExpiresAt: time.Now().Add(time.Hour)}
+	}
 	st.vipPushCookie = map[string]pushPollTransaction{c06PollCookie: {Username: "alice", TransactionID: "tx-approved", ExpiresAt: time.Now().Add(time.Hour)}}
 	st.pendingOauth2 = make(map[string]pendingAuth2Request)
 	st.Mutex.Unlock()
@@ -977,23 +989,35 @@ func (p *c06Prober) resetMaps() {
 	st.totpLocalTateLimitMutex.Unlock()
 }
 
-func (p *c06Prober) mapsDigest() string {
+// the challenge / push maps and the push counters of the fakes.  A second-factor transaction is
+// STARTED when an entry appears or is replaced, or a push goes out; an entry that is consumed
+// (deleted after a successful answer) starts nothing.
+func (p *c06Prober) mapsDigest() map[string]string {
 	st := p.env.state
 	st.Mutex.Lock()
 	defer st.Mutex.Unlock()
-	var ks []string
+	m := map[string]string{}
 	for k, v := range st.localAuthData {
 		c := ""
 		if v.U2fAuthChallenge != nil {
 			c = hex.EncodeToString(v.U2fAuthChallenge.Challenge)
 		}
-		ks = append(ks, "l:"+k+":"+c)
+		m["l:"+k] = c
 	}
 	for k, v := range st.vipPushCookie {
-		ks = append(ks, "v:"+k+":"+v.TransactionID)
+		m["v:"+k] = v.TransactionID
 	}
-	sort.Strings(ks)
-	return strings.Join(ks, ",") + fmt.Sprintf("|%d|%d", p.fakes.vipPushes, p.fakes.oktaPushes)
+	m["pushes"] = fmt.Sprintf("%d|%d", p.fakes.vipPushes, p.fakes.oktaPushes)
+	return m
+}
+
+func c06Started(before, after map[string]string) bool {
+	for k, v := range after {
+		if b, ok := before[k]; !ok || b != v {
+			return true
+		}
+	}
+	return false
 }
 
 // signed material: anything in the response that verifies under the keymaster keys
@@ -1083,7 +1107,7 @@ func (p *c06Prober) serve(req *http.Request) c06Obs {
 		o.effects |= c06EffChange
 		p.restoreTables()
 	}
-	if p.mapsDigest() != before {
+	if c06Started(before, p.mapsDigest()) {
 		o.effects |= c06EffStart
 	}
 	p.resetMaps()
@@ -1092,6 +1116,9 @@ func (p *c06Prober) serve(req *http.Request) c06Obs {
 
 // a well-formed request for the route (what a fitting credential would need to succeed)
 func (p *c06Prober) build(route verifRoute, key, method, target string, own bool, sh *c06Shape) *http.Request {
+	if time.Since(p.seededAt) > 100*time.Second {
+		p.seedProfiles() // U2F challenges are good for five minutes
+	}
 	form := url.Values{}
 	path := route.Path
 	body := ""
@@ -1107,10 +1134,21 @@ func (p *c06Prober) build(route verifRoute, key, method, target string, own bool
 		path += "session.js"
 	case "runtimeState.profileHandler", "runtimeState.u2fRegisterRequest", "runtimeState.webauthnBeginRegistration":
 		path += target
-	case "runtimeState.u2fRegisterResponse", "runtimeState.webauthnFinishRegistration":
+	case "runtimeState.u2fRegisterResponse":
+		// a genuine answer of the software token to the registration challenge pending in the profiles
 		path += target
 		body = "{}"
-	case "runtimeState.u2fSignResponse", "runtimeState.webauthnAuthFinish":
+		if reqJSON, err := json.Marshal(u2f.NewWebRegisterRequest(p.regChallenge, nil)); err == nil {
+			if b, err := p.dev.register(reqJSON, u2fTrustedFacets[0]); err == nil {
+				body = string(b)
+			}
+		}
+	case "runtimeState.webauthnFinishRegistration":
+		path += target
+		body = string(c06WebauthnCreate(p.dev, c06WAChallenge, p.env.state.webAuthn.Config.RPID, p.env.state.webAuthn.Config.RPOrigin))
+	case "runtimeState.u2fSignResponse":
+		body = string(c06U2FSignResponse(p.dev, p.signChallenge, u2fTrustedFacets[0]))
+	case "runtimeState.webauthnAuthFinish":
 		body = "{}"
 	case "runtimeState.addUserHandler":
 		form.Set("username", "vrfnewuser")
@@ -1125,11 +1163,18 @@ func (p *c06Prober) build(route verifRoute, key, method, target string, own bool
 	case "runtimeState.idpOpenIDCTokenHandler":
 		form.Set("grant_type", "authorization_code")
 		form.Set("code", "bogus")
+		if own {
+			form.Set("code", p.oidcCode) // a code the authorization endpoint issued to alice's session
+		}
 		form.Set("redirect_uri", "https://app.example.com/cb")
 		form.Set("client_id", "app")
 		form.Set("client_secret", "s")
-	case "runtimeState.VIPAuthHandler", "runtimeState.validateNewTOTP", "runtimeState.Okta2FAuthHandler":
+	case "runtimeState.VIPAuthHandler", "runtimeState.Okta2FAuthHandler":
 		form.Set("OTP", "123456")
+	case "runtimeState.validateNewTOTP":
+		// the code of the secret that is pending in the profiles
+		code, _ := totp.GenerateCode(p.totpKey, time.Now())
+		form.Set("OTP", code)
 	case "runtimeState.vipPushStartHandler":
 		cookies = append(cookies, &http.Cookie{Name: vipTransactionCookieName, Value: "vrf-new-transaction"})
 	case "runtimeState.VIPPollCheckHandler":
@@ -1238,15 +1283,46 @@ func (p *c06Prober) seedProfiles() {
 	if err != nil {
 		p.t.Fatal(err)
 	}
-	withTokens := func(name string) *userProfile {
-		reg, err := c06FakeRegistration(name)
+	// the software token: really registered in the three profiles, a registration pending in each
+	// (U2F challenge and WebAuthn session), and a sign challenge pending for alice
+	if p.dev == nil {
+		p.dev = newVerifU2FDevice()
+	}
+	newChallenge := func() *u2f.Challenge {
+		c, err := u2f.NewChallenge(u2fAppID, u2fTrustedFacets)
 		if err != nil {
 			p.t.Fatal(err)
 		}
-		pr := &userProfile{U2fAuthData: map[int64]*u2fAuthData{}, TOTPAuthData: map[int64]*totpAuthData{}}
-		pr.U2fAuthData[1] = &u2fAuthData{Enabled: true, CreatedAt: time.Now(), Name: "vrfcanary-u2f-" + name, Registration: reg}
+		return c
+	}
+	var devReg *u2f.Registration
+	{
+		c := newChallenge()
+		reqJSON, _ := json.Marshal(u2f.NewWebRegisterRequest(c, nil))
+		respJSON, err := p.dev.register(reqJSON, u2fTrustedFacets[0])
+		if err != nil {
+			p.t.Fatal(err)
+		}
+		var resp u2f.RegisterResponse
+		json.Unmarshal(respJSON, &resp)
+		devReg, err = u2f.Register(resp, *c, &u2f.Config{SkipAttestationVerify: true})
+		if err != nil {
+			p.t.Fatalf("software token registration refused: %v", err)
+		}
+	}
+	p.regChallenge, p.signChallenge = newChallenge(), newChallenge()
+	p.seededAt = time.Now()
+	withTokens := func(name string) *userProfile {
+		pr := &userProfile{U2fAuthData: map[int64]*u2fAuthData{}, TOTPAuthData: map[int64]*totpAuthData{}, WebauthnData: map[int64]*webauthAuthData{}}
+		pr.U2fAuthData[1] = &u2fAuthData{Enabled: true, CreatedAt: time.Now(), Name: "vrfcanary-u2f-" + name, Registration: devReg}
 		pr.TOTPAuthData[1] = &totpAuthData{Enabled: true, CreatedAt: time.Now(), Name: "vrfcanary-totp-" + name, EncryptedSecret: enc}
 		pr.UserHasRegistered2ndFactor = true
+		pr.RegistrationChallenge = p.regChallenge
+		pending := enc
+		pr.PendingTOTPSecret = &pending
+		pr.WebauthnID = 4711
+		pr.DisplayName, pr.Username = name, name
+		pr.WebauthnSessionData = &webauthn.SessionData{Challenge: c06WAChallenge, UserID: pr.WebAuthnID()}
 		return pr
 	}
 	for _, u := range []string{"alice", "bob", "admin"} {
@@ -1410,6 +1486,7 @@ func TestVerif_C06(t *testing.T) {
 		}
 		p.seedProfiles()
 		p.cliToken, _ = env.state.generateAuthJWT("alice")
+		p.oidcCode = c06AuthorizationCode(p)
 		p.shapes = c06Shapes(env, mat)
 		if ci == 0 && !c06DenyAssignable(p) {
 			denySweeps = false
@@ -1610,6 +1687,13 @@ func TestVerif_C06(t *testing.T) {
 				}
 			}
 			// the route's own credential, where the harness can produce it
+			if key == "runtimeState.idpOpenIDCTokenHandler" && p.oidcCode != "" {
+				for _, method := range []string{"GET", "POST", "PUT"} {
+					for _, oi := range []int{0, 3} {
+						probe(0, method, oi, "alice", true, 0)
+					}
+				}
+			}
 			if key == "runtimeState.requestAwsRoleCertificateHandler" {
 				for _, method := range []string{"GET", "POST", "PUT"} {
 					for _, oi := range []int{0, 3} {
@@ -2039,7 +2123,7 @@ func c06RealTLS(p *c06Prober, hit func(verifHit)) {
 					ro.effects |= c06EffChange
 					p.restoreTables()
 				}
-				if p.mapsDigest() != before {
+				if c06Started(before, p.mapsDigest()) {
 					ro.effects |= c06EffStart
 				}
 				p.resetMaps()
@@ -2095,3 +2179,75 @@ func c06OktaHandler(f *c06Fakes) http.Handler {
 }
 
 var _ = tls.VersionTLS12
+
+// ---------------------------------------------------------------- genuine second-factor material
+
+const c06WAChallenge = "dmVyaWYtd2ViYXV0aG4tY2hhbGxlbmdlLTAxMjM0NTY3"
+
+// a WebAuthn registration ("none" attestation) the software token gives for the pending session
+func c06WebauthnCreate(d *verifU2FDevice, challenge, rpID, origin string) []byte {
+	clientData, _ := json.Marshal(map[string]string{"type": "webauthn.create", "challenge": challenge, "origin": origin})
+	credID := make([]byte, 16)
+	rand.Read(credID)
+	x := d.key.PublicKey.X.FillBytes(make([]byte, 32))
+	y := d.key.PublicKey.Y.FillBytes(make([]byte, 32))
+	cose, err := cbor.Marshal(map[int]interface{}{1: 2, 3: -7, -1: 1, -2: x, -3: y})
+	if err != nil {
+		panic(err)
+	}
+	rp := sha256.Sum256([]byte(rpID))
+	ad := append([]byte{}, rp[:]...)
+	ad = append(ad, 0x41)       // user present + attested credential data
+	ad = append(ad, 0, 0, 0, 0) // signature counter
+	ad = append(ad, make([]byte, 16)...)
+	ad = append(ad, byte(len(credID)>>8), byte(len(credID)))
+	ad = append(ad, credID...)
+	ad = append(ad, cose...)
+	att, err := cbor.Marshal(map[string]interface{}{"fmt": "none", "attStmt": map[string]interface{}{}, "authData": ad})
+	if err != nil {
+		panic(err)
+	}
+	id := base64.RawURLEncoding.EncodeToString(credID)
+	body, _ := json.Marshal(map[string]interface{}{"id": id, "rawId": id, "type": "public-key",
+		"response": map[string]string{"attestationObject": base64.RawURLEncoding.EncodeToString(att), "clientDataJSON": base64.RawURLEncoding.EncodeToString(clientData)}})
+	return body
+}
+
+// the answer of the software token to a U2F sign challenge (FIDO U2F raw message formats, section 5)
+func c06U2FSignResponse(d *verifU2FDevice, c *u2f.Challenge, origin string) []byte {
+	if c == nil {
+		return []byte("{}")
+	}
+	d.counter++
+	clientData, _ := json.Marshal(u2f.ClientData{Typ: "navigator.id.getAssertion", Challenge: b64u(c.Challenge), Origin: origin})
+	app := sha256.Sum256([]byte(c.AppID))
+	chal := sha256.Sum256(clientData)
+	ctr := []byte{byte(d.counter >> 24), byte(d.counter >> 16), byte(d.counter >> 8), byte(d.counter)}
+	msg := append([]byte{}, app[:]...)
+	msg = append(msg, 1)
+	msg = append(msg, ctr...)
+	msg = append(msg, chal[:]...)
+	sigData := append([]byte{1}, ctr...)
+	sigData = append(sigData, d.sign(msg)...)
+	out, _ := json.Marshal(u2f.SignResponse{KeyHandle: b64u(d.keyHandle), SignatureData: b64u(sigData), ClientData: b64u(clientData)})
+	return out
+}
+
+// an authorization code as the authorization endpoint hands it to alice's hardware-token session
+func c06AuthorizationCode(p *c06Prober) string {
+	form := url.Values{}
+	form.Set("response_type", "code")
+	form.Set("client_id", "app")
+	form.Set("scope", "openid")
+	form.Set("redirect_uri", "https://app.example.com/cb")
+	form.Set("state", "xyz")
+	req := verifNewRequest("POST", idpOpenIDCAuthorizationPath, form)
+	req.AddCookie(p.env.cookie("alice", AuthTypePassword|AuthTypeU2F))
+	rr := httptest.NewRecorder()
+	p.handler.ServeHTTP(rr, req)
+	loc, err := url.Parse(rr.Header().Get("Location"))
+	if err != nil {
+		return ""
+	}
+	return loc.Query().Get("code")
+}
